@@ -23,6 +23,7 @@ and after SSA) and on the model's CFG — the tie to the code.
 import Circomspect.Lemmas.CfgLemmas
 import Circomspect.Lemmas.CfgClasses
 import Circomspect.Lemmas.CfgDepth
+import Circomspect.Lemmas.CfgEdges
 
 namespace Circomspect.C12
 open Circomspect CfgLift CfgLemmas CfgSpec Graph
@@ -93,10 +94,28 @@ theorem C12_loop_depth (body : Stmt) (bs : List Block) (ps : List Nat) (h : lift
     ∀ (i : Nat) (b : Block), bs[i]? = some b → ∀ st, st ∈ b.stmts → (Trace.stmtLoc st, b.depth) ∈ depths body 0 :=
   TracePaths.lift_depth body bs ps h
 
+/-- `run_complexity_analysis` computes `2 + edges - nodes` in unsigned arithmetic ("cyclomatic complexity subtracts node from edge
+    counts unsigned"): on every lifted CFG there are at least `nodes - 1` edges, so the subtraction cannot underflow, the result is
+    the integer `E - N + 2`, it is at least 1, and (two successors at most) at most `N + 2` -/
+theorem C12_complexity_defined (body : Stmt) (bs : List Block) (ps : List Nat) (h : lift body = .ok bs ps) :
+    bs.length ≤ 2 + CfgLift.edges bs ∧
+    (CfgLift.complexity bs : Int) = (CfgLift.edges bs : Int) - (bs.length : Int) + 2 ∧
+    1 ≤ CfgLift.complexity bs ∧ CfgLift.complexity bs ≤ bs.length + 2 := by
+  obtain ⟨_, _, hm, hr, hf⟩ := C12_shape body bs ps h
+  have h1 := CfgEdges.nodes_le_edges bs hm hr hf
+  have h2 : CfgLift.edges bs ≤ 2 * bs.length := by
+    apply CfgEdges.edges_le
+    intro b hb
+    obtain ⟨i, hi, e⟩ := List.getElem_of_mem hb
+    exact (C12_successors body bs ps h i b (by rw [List.getElem?_eq_getElem hi, e])).1
+  unfold CfgLift.complexity
+  refine ⟨by omega, by omega, by omega, by omega⟩
+
 /-- non-vacuity: `while (c) { if (d) { s } }  s'` lifts, to five blocks -/
 def exBody : Stmt :=
   .block (.cons (.while (1, 2) (.block (.cons (.ite (3, 4) (.block (.cons (.simple (5, 6)) .nil))) .nil)))
          (.cons (.simple (7, 8)) .nil))
 example : (match lift exBody with | .ok bs _ => bs.length | .panic _ => 0) = 5 := by decide
+example : (match lift exBody with | .ok bs _ => CfgLift.complexity bs | .panic _ => 0) = 3 := by decide
 
 end Circomspect.C12
